@@ -1,6 +1,7 @@
 import Gv.Model.Phase
 import Gv.Model.Facts
 import Gv.Proofs.PoolCore
+import Gv.Proofs.PhaseAlignNT
 /-!
 # C16 — phasing
 
@@ -15,9 +16,18 @@ import Gv.Proofs.PoolCore
   `pool_schedule_independent`;
 * what the T3 checks give: `phase_inputs_unmodified`, `instanceOfPool_closes_results`.
 
-Partial: the alignment itself (Smith–Waterman, property C09) enters only as a `Hit`; the clause "a sequence
-containing the reference ORF verbatim once is trimmed at its start" is checked on the implementation by the
-oracle predicate, not proved.  The Go memory model / scheduler are outside the model.
+* the aligner behind phasing (`Gv.Model.PhaseAlign`: `ALIGN_ALGO_ATG`, `alignAgainstRefsNT`), from the C09 fill
+  lemmas: `atg_verbatim_aligned_at_occurrence_partial`, `phase_nt_verbatim_trimmed_at_orf_start_partial` and its
+  two instances (match/mismatch scores; default DNAfull scores on A/C/G/T); two run-time panics of the code as
+  kernel-checked facts about the model: `phase_nt_panics_without_positive_alignment`,
+  `phase_nt_panics_on_slice_bounds`.
+
+Partial: the clause "a sequence containing the reference ORF verbatim once is trimmed at its start" is proved
+for the nucleotide mode (`phasent`), ONE reference, gap penalties
+`gapopen ≤ gapextend < 0` and a diagonally dominant scoring scheme (every match/mismatch scheme with
+`mismatch < match`, `0 < match`, one or both strands; DNAfull on A/C/G/T, forward strand) — not for the
+translate mode (BLOSUM62 on the three or six translations) or several references, where it enters only as a `Hit`
+and is checked on the implementation by the oracle predicate.  The Go memory model / scheduler are outside the model.
 -/
 namespace Gv.Props.C16
 open Gv Gv.Model Gv.Model.Phase
@@ -432,6 +442,123 @@ theorem instanceOfPool_closes_results {J V : Type} [DecidableEq J] (F : Facts) (
     simpa [disciplineOf, Facts.workersDone] using hdone
   have := terminal_shape ⟨f, fails, cap, disciplineOf F⟩ inputs (Or.inl hd) hcap n hn c hr ht
   exact ⟨this.2.2.2.2.2.2, this.2.2.2.2.2.1⟩
+
+/-! ## the aligner behind phasing: a verbatim occurrence of the reference -/
+
+section verbatim
+open Gv.Model.SW Gv.Model.PhaseAlign Gv.Proofs.PhaseAlignSpec Gv.Proofs.PhaseAlign Gv.Proofs.PhaseAlignNT
+open Gv.Props.C09 (schemeOf)
+
+/-- **the `ALIGN_ALGO_ATG` aligner returns a verbatim occurrence as it is** (repaired `fillMatrix_SW`).
+Hypotheses beyond the property (hence `_partial`): gap penalties `gapopen ≤ gapextend < 0`; the scoring scheme
+is diagonally dominant on the residues involved (`Dom`: a residue of the reference scores positively against
+itself and strictly less against any other residue of the sequence); the reference is non-empty and is a prefix
+of no other suffix of the sequence.  Conclusion: unless `Alignment()` reports an error, both returned rows are
+the reference, without gap or mismatch, the positions are those of the occurrence and the score is the
+reference's self-score.  Proved from the C09 lemmas about the repaired fill (`cellR_brute`: every cell holds the
+optimum over the alignments ending there; `brute_upper` / `brute_attained`). -/
+theorem atg_verbatim_aligned_at_occurrence_partial (a : Aligner) (orf pre post : Seq)
+    (hgap : a.gapopen ≤ a.gapextend ∧ a.gapextend < 0) (hne : orf ≠ [])
+    (hdom : Dom (schemeOf a) orf (pre ++ orf ++ post))
+    (honce : ∀ k, orf <+: (pre ++ orf ++ post).drop k → k = pre.length) :
+    alignATG a true orf (pre ++ orf ++ post) = AtgOutcome.err ∨
+    alignATG a true orf (pre ++ orf ++ post) = AtgOutcome.ok
+      { score := W (schemeOf a) orf, start1 := 0, start2 := pre.length,
+        end1 := (orf.length : Int) - 1, end2 := (pre.length : Int) + orf.length - 1,
+        length := orf.length, nmatch := orf.length, nmismatch := 0, ngaps := 0,
+        row1 := orf, row2 := orf } :=
+  alignATG_verbatim a orf pre post hgap hne hdom honce
+
+/-- **a sequence that contains the reference ORF verbatim once is trimmed exactly at that ORF's start**
+— nucleotide mode (`alignAgainstRefsNT`), one reference, under the hypotheses of
+`atg_verbatim_aligned_at_occurrence_partial` (and no gap character in the reference); when both strands are
+searched (`reverse`), also: the scheme used for the reverse-complemented copy is dominant there and gives the
+reference no greater self-score.  Unless an alignment error is reported, the reported position is the offset of
+the occurrence, the trimmed nucleotides start with the reference (and are the reference when the end is cut),
+the codon sequence is the trimmed sequence (frame 0), and the hit is on the forward strand. -/
+theorem phase_nt_verbatim_trimmed_at_orf_start_partial (c : NTCfg) (code : List (List Byte × Byte))
+    (orf pre post : Seq) (hfix : c.fixed = true)
+    (hgap : c.gapopen ≤ c.gapextend ∧ c.gapextend < 0) (hne : orf ≠ []) (hng : GAP ∉ orf)
+    (hdom : Dom (schemeOf (c.aligner orf (pre ++ orf ++ post))) orf (pre ++ orf ++ post))
+    (honce : ∀ k, orf <+: (pre ++ orf ++ post).drop k → k = pre.length)
+    (hrev : c.reverse = true →
+      Dom (schemeOf (c.aligner orf (revcompIgnoringError (pre ++ orf ++ post)))) orf
+          (revcompIgnoringError (pre ++ orf ++ post)) ∧
+        W (schemeOf (c.aligner orf (revcompIgnoringError (pre ++ orf ++ post)))) orf
+          ≤ W (schemeOf (c.aligner orf (pre ++ orf ++ post))) orf) :
+    phaseNT c code [orf] (pre ++ orf ++ post) = NTOut.err ∨
+    ∃ p, phaseNT c code [orf] (pre ++ orf ++ post)
+        = NTOut.ok p ⟨false, 0, pre.length, pre.length + orf.length - 1⟩ ∧
+      p.position = pre.length ∧ p.nt = (if c.cutend then orf else orf ++ post) ∧ p.codon = p.nt :=
+  phaseNT_verbatim c code orf pre post hfix hgap hne hng hdom honce hrev
+
+/-- instance: `SetAlignScores(match, mismatch)` with `0 < match`, `mismatch < match` — any residues, one or
+both strands -/
+theorem phase_nt_verbatim_trimmed_matchmismatch_partial (c : NTCfg) (code : List (List Byte × Byte))
+    (orf pre post : Seq) (mt mm : Int) (hsc : c.scores = some (mt, mm)) (hpos : 0 < mt) (hlt : mm < mt)
+    (hfix : c.fixed = true)
+    (hgap : c.gapopen ≤ c.gapextend ∧ c.gapextend < 0) (hne : orf ≠ []) (hng : GAP ∉ orf)
+    (honce : ∀ k, orf <+: (pre ++ orf ++ post).drop k → k = pre.length) :
+    phaseNT c code [orf] (pre ++ orf ++ post) = NTOut.err ∨
+    ∃ p, phaseNT c code [orf] (pre ++ orf ++ post)
+        = NTOut.ok p ⟨false, 0, pre.length, pre.length + orf.length - 1⟩ ∧
+      p.position = pre.length ∧ p.nt = (if c.cutend then orf else orf ++ post) ∧ p.codon = p.nt :=
+  phaseNT_verbatim c code orf pre post hfix hgap hne hng
+    (dom_of_scores c orf _ mt mm hsc hpos hlt _ _) honce
+    (fun _ => ⟨dom_of_scores c orf _ mt mm hsc hpos hlt _ _,
+      Int.le_of_eq (by rw [scheme_of_scores_eq c orf _ (pre ++ orf ++ post) mt mm hsc])⟩)
+
+/-- instance: the phaser's default scoring (DNAfull chosen by `NewPwAligner`) on upper-case `A`, `C`, `G`, `T`
+sequences, forward strand -/
+theorem phase_nt_verbatim_trimmed_default_acgt_partial (c : NTCfg) (code : List (List Byte × Byte))
+    (orf pre post : Seq) (hsc : c.scores = none) (ha : c.alphaFixed = true) (hden : 0 < c.den)
+    (h1 : ∀ x ∈ orf, x ∈ ([65, 67, 71, 84] : List Byte))
+    (h2 : ∀ y ∈ pre ++ orf ++ post, y ∈ ([65, 67, 71, 84] : List Byte))
+    (hfix : c.fixed = true) (hrev : c.reverse = false)
+    (hgap : c.gapopen ≤ c.gapextend ∧ c.gapextend < 0) (hne : orf ≠ [])
+    (honce : ∀ k, orf <+: (pre ++ orf ++ post).drop k → k = pre.length) :
+    phaseNT c code [orf] (pre ++ orf ++ post) = NTOut.err ∨
+    ∃ p, phaseNT c code [orf] (pre ++ orf ++ post)
+        = NTOut.ok p ⟨false, 0, pre.length, pre.length + orf.length - 1⟩ ∧
+      p.position = pre.length ∧ p.nt = (if c.cutend then orf else orf ++ post) ∧ p.codon = p.nt := by
+  obtain ⟨hm, hc, hd⟩ := aligner_default_dna c hsc ha orf (pre ++ orf ++ post) h1 h2
+  have hng : GAP ∉ orf := fun h => by have := h1 _ h; revert this; decide
+  exact phaseNT_verbatim c code orf pre post hfix hgap hne hng
+    (dom_dnafull _ (by rw [hd]; exact hden) hm hc _ _ h1 h2) honce (fun h => by rw [hrev] at h; cases h)
+
+/-- the premise "occurs exactly once" can be discharged by evaluating the oracle's search -/
+theorem once_of_occurrences (orf seq : Seq) (p : Nat) (hne : orf ≠ []) (h : occurrences orf seq = [p]) :
+    ∀ k, orf <+: seq.drop k → k = p :=
+  Gv.Proofs.PhaseAlignNT.once_of_occurrences orf seq p hne h
+
+set_option maxRecDepth 100000 in
+/-- the hypotheses are satisfiable, and the conclusion is the non-error disjunct: default settings,
+`ATGAAATAA` inside `CC…CC` -/
+example :
+    (∀ k, ([65, 84, 71, 65, 65, 65, 84, 65, 65] : Seq) <+:
+        (([67, 67] : Seq) ++ [65, 84, 71, 65, 65, 65, 84, 65, 65] ++ [67, 67]).drop k → k = 2) ∧
+    phaseNT {} Gen.standardcode [[65, 84, 71, 65, 65, 65, 84, 65, 65]]
+        (([67, 67] : Seq) ++ [65, 84, 71, 65, 65, 65, 84, 65, 65] ++ [67, 67]) =
+      NTOut.ok ⟨2, [65, 84, 71, 65, 65, 65, 84, 65, 65, 67, 67], [65, 84, 71, 65, 65, 65, 84, 65, 65, 67, 67],
+        some [77, 75, 42]⟩ ⟨false, 0, 2, 10⟩ :=
+  ⟨once_of_occurrences _ _ 2 (by decide) (by decide), by decide⟩
+
+/-! ### two inputs on which the worker goroutine of `Phase` panics (the process dies) -/
+
+set_option maxRecDepth 100000 in
+/-- **no alignment anchored at the reference's start scores above 0** (`ATG` against `CC`, default settings):
+`bestseq` stays `nil` and `bestseq.Name()` dereferences it.  The property promises one result per input
+"unless an alignment error is reported"; the code reports no error, it crashes. -/
+theorem phase_nt_panics_without_positive_alignment :
+    phaseNT {} Gen.standardcode [[65, 84, 71]] [67, 67] = NTOut.panic := by decide
+
+set_option maxRecDepth 100000 in
+/-- **the hit is shorter than the frame shift** (`ATG` against `T`, `--gap-open -1`): the alignment `AT` / `-T`
+has one leading gap, so `phase = 2`, and `bestseq.SequenceChar()[beststart+phase : bestend]` is `[2:1]` -/
+theorem phase_nt_panics_on_slice_bounds :
+    phaseNT { gapopen := -2 } Gen.standardcode [[65, 84, 71]] [84] = NTOut.panic := by decide
+
+end verbatim
 
 /-! ## non-vacuity -/
 
